@@ -48,6 +48,7 @@ def main(tier):
     chk.run("R-CANONNAME", RR.canonname, cx.repo, floor=1)
     chk.run("R-PRECOND", FLW.precond, cx.repo, floor=3)
     chk.run("R-VERIFYEXIT", V.verifyexit, cx.repo, floor=2)
+    chk.run("R-PRESENTARG", V.presentarg, cx.repo, floor=2)
     # "rejected with an error that points into the definition containing the offending construct"
     chk.run("R-FOREIGNFILE", ST.foreignfile, cx.repo, floor=8)
     chk.run("R-EXTINT", BRX.extint, cx.repo, floor=2)
